@@ -14,7 +14,7 @@
 (*   "eq"   a, b          two terms claimed to denote the same quantity    *)
 (* out = [k |-> "expr", e |-> term] | [k |-> "unident"] | [k |-> "exc"]    *)
 (***************************************************************************)
-EXTENDS ID, ExprMath, CF, Json, IOUtils
+EXTENDS ID, ExprMath, CF, IDStar, Json, IOUtils
 
 CONSTANTS Seeds, Layout, Ternary, Fam     \* Fam: "S" stochastic | "F" functional models   \* Layout: "edge" | "clique"; Ternary: set of nodes with 3 values
 
@@ -229,7 +229,7 @@ ReadCmpWeak(Ws, e, ev, target) ==
   IN IF good # {} THEN cs[Pick(good)] ELSE cs[ApplyReading(e, R0)]
 IsZeroEverywhere(Ws, t) == LET c == Cmp(Ws, t, ZeroT) IN c.nbad = 0
 \* ID*: an expression for P(event), zero only for impossible events, or the refusal
-JudgeStar(G, Ws, r) ==
+JudgeStar0(G, Ws, r) ==
   LET truth == EventTerm(r.ev, 0) IN
   CASE r.out.k = "exc" -> Verdict(r.id, FALSE, "other-failure", NoCmp)
     [] r.out.k = "unident" -> Verdict(r.id, TRUE, "refused", NoCmp)
@@ -243,6 +243,11 @@ JudgeStar(G, Ws, r) ==
               IF c.nbad > 0 THEN Verdict(r.id, FALSE, "value", c)
               ELSE IF c.ndef = 0 THEN Verdict(r.id, FALSE, "undefined-everywhere", c)
               ELSE Verdict(r.id, TRUE, "ok", c)
+\* (the verdict also records whether the reference ID* of IDStar.tla answers this event: a diagnostic field)
+JudgeStar(G, Ws, r) ==
+  LET v == JudgeStar0(G, Ws, r) IN
+  [id |-> v.id, ok |-> v.ok, clause |-> v.clause, c |-> v.c,
+   ref |-> IF IsFail(IDStarRef(G, ToSet(r.ev))) THEN "refuses" ELSE "answers"]
 \* IDC*: P(outcomes and conditions) / P(conditions); an impossible condition must be rejected, not answered
 JudgeCStar(G, Ws, r) ==
   LET joint == EventTerm(r.ev \o r.cond, 0)
